@@ -18,7 +18,9 @@ func init() {
 		explanation: "What a literal DENOTES is not decided (escape decoding and UTF-8 arithmetic are runtime values). Decided is that the emitted literal is well delimited and, for numbers, verbatim — on every path and for every byte value (byte-set abstract interpretation of the scanners, one context per source delimiter): " +
 			"R7.1/R7.2 for the string and backtick printers the output delimiter D is read from the printer; every byte sink of the scanner's result buffer is enumerated with the set of bytes it can write; a sink is safe when it is the second byte of a preserved escape pair (immediately preceded by a written backslash), a constant that is neither D nor a line terminator (a constant backslash must be followed by its pair), a verbatim source byte whose set excludes D (unless the printer neutralises D), or a computed byte whose set excludes D, backslash and the line terminators; " +
 			"R7.3 number literals are emitted verbatim: the printers write exactly Token.Literal, the parser stores the current token unchanged, and the literal is the source slice (C10 R10.4); " +
-			"R7.4 the integer/float parse methods branch on strconv's error and return nil on the error edge. " +
+			"R7.4 the integer/float parse methods branch on strconv's error and return nil on the error edge; " +
+			"R7.5 the code-point encoder has RFC 3629's range boundaries, lengths, markers, shifts and masks; R7.6 in every delimited scanner a backslash takes the next byte with it; R7.7 the scanners keep no state between characters; " +
+			"R7.8 in a scanner whose rounds can all be walked path by path, every round writes what it consumes (a backslash the printer restores and an escape the scanner adds are the accounted differences). " +
 			"Genuine defects found by R7.1 are listed as known findings (decoded \\xHH/\\uHHHH/\\u{…} escapes can produce the delimiter, a backslash or a line terminator) or repaired.",
 		notDecided: []string{"the value an escape sequence decodes to (arithmetic of hex/UTF-8 encoding)", "surrogate pairs", "whether strconv's accepted number syntax equals ECMAScript's"},
 	})
